@@ -19,7 +19,7 @@ Variants == {<<FALSE, 0, FALSE>>, <<TRUE, 0, FALSE>>, <<TRUE, 1, TRUE>>, <<FALSE
 Choose == /\ phase = "grow"
           /\ \E name \in BCtxNames, lit \in BOOLEAN, ch \in {"strip", "clip", "keep"}, ex \in {0, 2, 13}, v \in Variants, en \in {"nl", "none", "follow"} :
                /\ (ex = 13 => (name = "mapvalue" /\ ~v[1]))                                \* the deep indentation family (>= buffer size - 2)
-               /\ (name \in {"top", "topdoc"} => ~v[1])                                   \* no indicator at top level (see DESIGN)
+               /\ (name \in {"top", "topdoc"} => (v[1] => ex >= 1))                      \* at top level the indicator is the content indentation itself
                /\ ((NeedsIndicator(ls) = TRUE) => v[1])
                /\ (((\E i \in 1..Len(ls) : LooksLikeMarker(ls[i])) = TRUE) => BCtx(name).n + 1 + ex >= 1)   \* at column 0 such a line is a real marker
                /\ (v[1] => BCtx(name).n + 1 + ex - (IF BCtx(name).n < 0 THEN 0 ELSE BCtx(name).n) <= 9)
